@@ -154,7 +154,20 @@ example : (run Skeleton.current init
 theorem C04_receive_fails_only_when_closed :
     Skeleton.current.bcReceiveErrorsOnlyClosed = true ∧ Skeleton.current.bcReceiveRefusesWhenClosed = true := by decide
 
+/-- The same guarantees hold for a closure invocation made by a handler: it IS a call of M2 (the proxy
+    goes through the very stub the theorems above are about) whose context is the one the handler passed
+    to the callable — the proxy keeps it in a variable of its own, assigned from the invocation's first
+    argument, and hands exactly that to the stub (checked against the regenerated skeleton); a proxy that
+    used the link's context instead would ignore a per-invocation deadline.  And cancelling a call whose
+    closure is still RUNNING returns promptly as well: releasing the closure takes the table's mutex,
+    which `CallClosure` does not hold while the closure runs. -/
+theorem C04_closure_invocations_are_cancellable :
+    Skeleton.current.pxCtxIsInvocationCtx = true ∧ Skeleton.current.clInvokeOutsideLock = true ∧
+    Skeleton.current.clLockIsMutex = true := by decide
+
 end Panrpc.Ep
+
+#print axioms Panrpc.Ep.C04_closure_invocations_are_cancellable
 
 #print axioms Panrpc.Ep.C04_only_ctx_error
 #print axioms Panrpc.Ep.C04_cancel_returns
